@@ -856,7 +856,7 @@ theorem gcd_gen_eq (fuel : Nat) (x y : Int) : GenShape.gcdGen fuel x y = gcdLoop
     · by_cases hn : y < 0 <;> simp [hy, hn] <;> exact ih _ _
 
 theorem lcm_gen_eq (x y : Int) : GenShape.lcmGen x y = pyLcm x y := by
-  simp [GenShape.lcmGen, pyLcm, pyGcd, gcd_gen_eq]
+  simp only [GenShape.lcmGen, pyLcm, pyGcd, gcd_gen_eq] <;> first | rfl | (congr 1; ring)
 
 theorem lcml_gen_eq (a : Int) (rest : List Int) : GenShape.lcmlGen (a :: rest) = lcml a rest := by
   have : GenShape.lcmGen = pyLcm := by funext x y; exact lcm_gen_eq x y
